@@ -237,6 +237,20 @@ class World(object):
                 self.problems.append(("inplace-new-object", "m *= -1 created a new object"))
                 self.env[a["m"]] = o
             return True
+        if k == "IOpWiden":
+            o = self.env[a["m"]]
+            before = project(o)
+            ops = ["o += 1.5", "o -= 1.5", "o *= 2.0", "o /= 2.0", "o %= 2.0"] if o.typecode == "i" else ["o += 1j", "o -= 1j", "o *= 1j", "o /= 1j"]
+            for op in ops:
+                try:
+                    exec(op, {"o": o})
+                    self.problems.append(("inplace-widens|" + op.split()[1], "%s on a '%s' matrix was accepted" % (op, before["tc"])))
+                except Exception:
+                    pass
+                if project(o) != before:
+                    self.problems.append(("inplace-widens|" + op.split()[1], "%s on a '%s' matrix changed it to %s" % (op, before["tc"], project(o))))
+                    break
+            return False
         if k == "Reshape":
             o = self.env[a["m"]]
             o.size = (o.size[1], o.size[0])
